@@ -328,22 +328,22 @@ def run(job):
         elif entry == "pre":
             trees = [tree_of(c)[0] for c in job["conds"]]
             outs = pp.Precondition._simplify_numeric_preconditions(trees, decimal_digits=d)
-        elif entry == "print":
-            pre = pp.Precondition("and")
-            trees = [tree_of(c)[0] for c in job["conds"]]
-            for t in trees:
-                pre.add_condition(t)
-            pre.operands = list(trees)  # fixed iteration order (the attribute is only iterated)
-            text = pre.print(should_simplify=True, decimal_digits=d)
+        elif entry in ("print", "or", "str"):
+            # Precondition.print(should_simplify=True) of a flat conjunction / disjunction; "str": str(precondition), i.e. the
+            # default number of decimals
+            head = "or" if entry == "or" else "and"
+            pre = _flat_precondition(head, job["conds"])
+            text = str(pre) if entry == "str" else pre.print(should_simplify=True, decimal_digits=d)
             out["printed"] = text
             ast = parse_prefix(text)
             outs = None
-            out["and_text"] = text
+        elif entry == "nested":
+            return run_nested(job)
         else:
             raise RuntimeError("unknown entry " + entry)
-        if entry == "print":
+        if entry in ("print", "or", "str"):
             out["ok"] = [text]
-            out["reader_ok"] = all(reader_accepts(_show(c)) for c in ast[1:]) and ast[0] == "and"
+            out["reader_ok"] = all(reader_accepts(_show(c)) for c in ast[1:]) and ast[0] == head
         else:
             out["ok"] = outs
             out["reader_ok"] = all(isinstance(o, str) and reader_accepts(o) for o in outs)
@@ -362,6 +362,81 @@ def run(job):
 MAX_HINTS = 24
 
 
+def _flat_precondition(head, conds, universal=False):
+    pre = pp.UniversalPrecondition("?q", OBJ, head) if universal else pp.Precondition(head)
+    trees = [tree_of(c)[0] for c in conds]
+    for t in trees:
+        pre.add_condition(t)
+    pre.operands = list(trees)  # fixed iteration order (the attribute is only iterated)
+    return pre
+
+
+def _group_of(ast_node):
+    """the comparisons printed directly under an (and ...) / (or ...) node"""
+    return [_show(c) for c in ast_node[1:] if isinstance(c, list) and c and c[0] in CMP]
+
+
+def group_result(head, conds, printed_conds, digits, name=None):
+    """one printed group (the numeric conditions directly under one and / or node) as an end-to-end case of its own"""
+    text = "(%s %s)" % (head, " ".join(printed_conds))
+    g = {"name": name, "entry": "or" if head == "or" else "print", "digits": digits, "conds": conds, "ok": [text],
+         "reader_ok": all(reader_accepts(c) for c in printed_conds)}
+    try:
+        g["hints"] = make_hints({"entry": g["entry"], "conds": conds}, g)
+    except Exception as ex:  # noqa
+        g["hints"], g["hints_error"] = [], repr(ex)
+    return g
+
+
+def run_nested(job):
+    """a compound precondition: numeric conditions at the top level (a conjunction), inside a nested (or ...) and inside a
+    universally quantified (and ...) / (or ...); printed through CompoundPrecondition.print (or str()); every group is
+    returned as a case of its own.  job: groups = {"top": [...], "or": [...], "forall": [...]}, forall_head, via"""
+    del _LOG[:]
+    out = {}
+    d = job["digits"]
+    g = job["groups"]
+    try:
+        comp = pp.CompoundPrecondition()
+        top = _flat_precondition("and", g["top"])
+        comp.root = top
+        kids = []
+        if g.get("or"):
+            kids.append(_flat_precondition("or", g["or"]))
+        if g.get("forall"):
+            kids.append(_flat_precondition(job.get("forall_head", "and"), g["forall"], universal=True))
+        top.operands = list(top.operands) + kids
+        text = str(comp) if job.get("via") == "str" else comp.print(should_simplify=True, decimal_digits=d)
+        out["printed"] = text
+        ast = parse_prefix(text)
+        if ast[0] != "and":
+            raise RuntimeError("printed compound precondition is not a conjunction")
+        groups = [group_result("and", g["top"], _group_of(ast), d, "top")]
+        ors = [c for c in ast[1:] if isinstance(c, list) and c and c[0] == "or"]
+        fas = [c for c in ast[1:] if isinstance(c, list) and c and c[0] == "forall"]
+        if g.get("or"):
+            if len(ors) != 1:
+                raise RuntimeError("expected one printed (or ...), found %d" % len(ors))
+            groups.append(group_result("or", g["or"], _group_of(ors[0]), d, "or"))
+        elif ors:
+            raise RuntimeError("an (or ...) was printed that the input does not have")
+        if g.get("forall"):
+            if len(fas) != 1 or len(fas[0]) != 3 or fas[0][2][0] != job.get("forall_head", "and"):
+                raise RuntimeError("expected one printed (forall (?q - object) (%s ...))" % job.get("forall_head", "and"))
+            groups.append(group_result(fas[0][2][0], g["forall"], _group_of(fas[0][2]), d, "forall"))
+        elif fas:
+            raise RuntimeError("a (forall ...) was printed that the input does not have")
+        out["ok"] = [text]
+        out["groups"] = groups
+        out["reader_ok"] = all(x["reader_ok"] for x in groups)
+    except Exception as ex:  # noqa
+        out["raised"] = type(ex).__name__
+        out["msg"] = str(ex)[:200]
+    out["glue"] = list(_LOG)
+    out["hints"] = []
+    return out
+
+
 def make_hints(job, out):
     if "ok" not in out:
         return []
@@ -375,7 +450,7 @@ def make_hints(job, out):
                     hs.append(hl[level])
         return hs[:MAX_HINTS]
     conds = out["ok"]
-    if job["entry"] == "print":
+    if job["entry"] in ("print", "or", "str"):
         e = _sexp(out["ok"][0])
         conds = [_show(c) for c in e[1:]]
     extra = []
@@ -460,3 +535,62 @@ def fixtures(job):
                 seen.add(key)
                 out.append({"file": os.path.relpath(f, str(root)), "action": name, "conds": texts})
     return {"files": len(files), "parsed_domains": parsed, "sets": out}
+
+
+def fixture_nodes(job):
+    """Precondition.print(should_simplify=True) on the shipped domains' OWN precondition objects: every and / or node (also
+    inside forall) of every action of every domain that parses and has numeric conditions directly under it; the input
+    conditions are the node's numeric operands printed with exact constants.  job: digits (list to cycle through)"""
+    logging.disable(logging.CRITICAL)
+    from pddl_plus_parser.lisp_parsers import DomainParser
+    from pddl_plus_parser.models.numerical_expression import NumericalExpressionTree
+    from pddl_plus_parser.models.pddl_precondition import Precondition
+    import pddl_plus_parser
+    root = Path(pddl_plus_parser.__file__).resolve().parent.parent / "tests"
+    digits = job.get("digits") or [4]
+    limit = job.get("max_conds", 8)
+    seen, out, k = set(), [], 0
+
+    def nodes(pre, acc):
+        if any(isinstance(o, NumericalExpressionTree) for o in pre.operands):
+            acc.append(pre)
+        for o in pre.operands:
+            if isinstance(o, Precondition):
+                nodes(o, acc)
+    files = sorted(glob.glob(str(root / "**" / "*.pddl"), recursive=True))
+    parsed = 0
+    for f in files:
+        try:
+            dom = DomainParser(Path(f)).parse_domain()
+        except BaseException:  # noqa
+            continue
+        if not getattr(dom, "actions", None):
+            continue
+        parsed += 1
+        for name, a in dom.actions.items():
+            acc = []
+            nodes(a.preconditions.root, acc)
+            for node in acc:
+                nums = [o for o in node.operands if isinstance(o, NumericalExpressionTree)]
+                conds = sorted(x.to_pddl(None) for x in nums)
+                key = (node.binary_operator, tuple(conds))
+                if key in seen or len(conds) > limit:
+                    continue
+                seen.add(key)
+                d = digits[k % len(digits)]
+                k += 1
+                del _LOG[:]
+                rec = {"file": os.path.relpath(f, str(root)), "action": name, "head": node.binary_operator, "digits": d}
+                try:
+                    text = node.print(should_simplify=True, decimal_digits=d)
+                    ast = parse_prefix(text)
+                    body = ast[2] if ast[0] == "forall" else ast
+                    if body[0] != node.binary_operator:
+                        raise RuntimeError("printed node has another operator")
+                    rec.update(group_result(body[0], conds, _group_of(body), d))
+                except Exception as ex:  # noqa
+                    rec.update({"entry": "or" if node.binary_operator == "or" else "print", "conds": conds,
+                                "raised": type(ex).__name__, "msg": str(ex)[:200], "hints": []})
+                rec["glue"] = list(_LOG)
+                out.append(rec)
+    return {"files": len(files), "parsed_domains": parsed, "nodes": out}
